@@ -178,6 +178,12 @@ def read (mrw : Nat) (gone : Option Nat) (n : Nat) (timeout : Option Nat) (s : S
     | (.closed, t1, sel) => (.closed, { s with now := t1 }, sel)
     | (.hang, t1, sel) => (.hang, { s with now := t1 }, sel)
 
+/-- what `os.write` is scripted to accept of `len` bytes (the partial-write oracle) -/
+def accepted (accept : List Nat) (len : Nat) : Nat :=
+  match accept with
+  | [] => len
+  | a :: _ => min a len
+
 /-- `SubprocessChannelIO.write(buf)`: closed check, `select([], [fd], [], 10.0)`, `os.write` -/
 def write (wguard : Nat) (gone wready : Option Nat) (buf : Bytes) (s : St) : Out × St × List Nat :=
   if closedAt gone s.now then (.closed, s, [])
@@ -188,9 +194,7 @@ def write (wguard : Nat) (gone wready : Option Nat) (buf : Bytes) (s : St) : Out
     match t1 with
     | none => (.wtimeout, { s with now := s.now + wguard }, [wguard])
     | some t1 =>
-      let k := match s.accept with
-        | [] => buf.length
-        | a :: _ => min a buf.length
+      let k := accepted s.accept buf.length
       let s' := { s with now := t1, accept := s.accept.drop 1 }
       if k = 0 then (.closed, s', [wguard]) else (.wrote k, s', [wguard])
 
